@@ -24,7 +24,7 @@ var mutatingNames = []string{
 	"utimensat", "mknod", "mknodat", "setxattr", "fsetxattr", "lsetxattr",
 }
 
-var extraNames = []string{"close", "faccessat", "faccessat2", "access", "dup", "dup2", "dup3", "fcntl"}
+var extraNames = []string{"close", "faccessat", "faccessat2", "access", "dup", "dup2", "dup3"}
 
 // Call is one parsed system call.
 type Call struct {
@@ -56,6 +56,8 @@ func (c *Call) failed() bool {
 	n, ok := c.retInt()
 	return ok && n < 0
 }
+
+var retRe = regexp.MustCompile(`\)\s+= `)
 
 var lineRe = regexp.MustCompile(`^(\d+)\s+(.*)$`)
 
@@ -113,14 +115,15 @@ func parseStrace(path string) ([]*Call, error) {
 }
 
 func finishCall(c *Call, body string) {
-	i := strings.LastIndex(body, ") = ")
-	if i < 0 {
+	locs := retRe.FindAllStringIndex(body, -1)
+	if len(locs) == 0 {
 		c.Args = splitArgs(body)
 		c.Ret, c.Killed = "?", true
 		return
 	}
-	c.Args = splitArgs(body[:i])
-	c.Ret = strings.TrimSpace(body[i+4:])
+	loc := locs[len(locs)-1]
+	c.Args = splitArgs(body[:loc[0]])
+	c.Ret = strings.TrimSpace(body[loc[1]:])
 	c.Killed = strings.HasPrefix(c.Ret, "?")
 	c.Inj = strings.Contains(c.Ret, "(INJECTED)")
 }
@@ -277,6 +280,14 @@ func analyse(calls []*Call, cwd string) *OpTrace {
 			c.Path, c.Path2 = abs("", q(0)), abs("", q(1))
 		case "renameat", "renameat2":
 			c.Path, c.Path2 = abs(arg(c, 0), q(1)), abs(arg(c, 2), q(3))
+			if !c.failed() && !c.Killed {
+				// descriptors of the renamed file now refer to the new path
+				for n, p := range fds {
+					if p == c.Path {
+						fds[n] = c.Path2
+					}
+				}
+			}
 		case "link":
 			c.Path, c.Path2 = abs("", q(0)), abs("", q(1))
 		case "linkat":
